@@ -996,6 +996,12 @@ def parse_tree_to_objgraph(
 
                 for m in models:
                     assert not m._tx_reference_resolver.parser._inst_stack
+                    # Postponed references are collected later than the
+                    # references that follow them: restore the order by
+                    # position (required for binary search).
+                    m._tx_reference_resolver.pos_crossref_list.sort(
+                        key=lambda ref: ref.ref_pos_start
+                    )
 
                 # cleanup
                 for m in models:
